@@ -94,6 +94,14 @@ func genTerm(t *rapid.T) termCase {
 	if c.Prefix == "fresh" || c.Prefix == "midconnect" {
 		causes = append(causes, "illegal")
 	}
+	if c.Prefix == "active" && rapid.IntRange(0, 3).Draw(t, "stalled") == 0 {
+		// The broker has stopped reading (full socket buffer) and the session is stuck in a write to
+		// it when the cause arrives. A session stuck like that reads no datagrams, so only causes
+		// which do not have to be read from the MQTT-SN link are drawn.
+		add(gwsim.Step{K: "mqstall"}, gwgen.SN(gwgen.Publish(snref.TITShort, snref.ShortID("ab"), 0, 0, []byte("blocked"))))
+		c.Pending = append(c.Pending, "blocked-broker-write")
+		causes = []string{"cancel", "cancel", "mqclose", "badmq"}
+	}
 	c.Cause = rapid.SampledFrom(causes).Draw(t, "cause")
 	if rapid.Bool().Draw(t, "pause") {
 		add(gwgen.Adv(int64(rapid.SampledFrom([]int{1, 99, 100, 101, 950}).Draw(t, "pause_ms"))))
